@@ -116,6 +116,7 @@ class BaseANTLRSpineParserListener(kernSpineParserListener):
         token = NoteRestToken(ctx.getText(), pitchduration_subtokens, self.decorations)
         if self.in_chord:
             self.chord_tokens.append(token)
+            self.decorations = []  # every note of a chord owns its decorations: the list must not be shared with the next note
         else:
             self.token = token
 
